@@ -3,7 +3,8 @@
 # usage: build.sh [flavour]   flavour: rel (default) | asan | tsan
 set -e
 FL=${1:-rel}
-B=/verif/build/$FL
+REPO=${VERIF_REPO:-/repo}
+B=${VERIF_BUILD:-/verif/build}/$FL
 GUARD=OPENSMT_VERIF_TRACE
 case $FL in
   rel)  TYPE=Release; FLAGS="-D$GUARD -Wno-error";;
@@ -15,7 +16,7 @@ mkdir -p $B
 (
   flock 9
   if [ ! -f $B/build.ninja ]; then
-    cmake -G Ninja -S /repo -B $B -DCMAKE_BUILD_TYPE=$TYPE -DPACKAGE_TESTS=OFF -DBUILD_SHARED_LIBS=OFF \
+    cmake -G Ninja -S $REPO -B $B -DCMAKE_BUILD_TYPE=$TYPE -DPACKAGE_TESTS=OFF -DBUILD_SHARED_LIBS=OFF \
       -DCMAKE_CXX_FLAGS="$FLAGS" > $B/cmake.log 2>&1 || { cat $B/cmake.log >&2; exit 2; }
   fi
   ninja -C $B -j16 > $B/ninja.log 2>&1 || { tail -50 $B/ninja.log >&2; exit 2; }
